@@ -110,7 +110,9 @@ int __wrap_fiber_context_init_from_thread(fiber_context_t* ctx) {
 
 static int exempt(fiber_t* f) {
   fiber_manager_t* m = fiber_manager_get();
-  return m && (f == m->maintenance_fiber || f == m->thread_fiber);
+  // only the per-thread maintenance (idle loop) fiber is entered without a wake-up;
+  // thread 0's thread fiber is the main program and is scheduled like any other
+  return m && f == m->maintenance_fiber;
 }
 
 void __wrap_fiber_context_swap(fiber_context_t* from, fiber_context_t* to) {
@@ -135,7 +137,9 @@ void __wrap_fiber_context_swap(fiber_context_t* from, fiber_context_t* to) {
   }
   if (gto) {
     fiber_t* f = FIBER_OF(to);
-    if (!exempt(f)) {
+    if (exempt(f)) {
+      if (gto->pending > 0) gto->pending--;
+    } else {
       gto->pending--;
       gto->runs++;
       if ((fmc_omask & FMC_O_WAKES) && gto->pending < 0)
